@@ -44,6 +44,13 @@ func main() {
 		tier := fs.String("tier", envOr("VERIF_TIER", "quick"), "quick or thorough")
 		_ = fs.Parse(os.Args[3:])
 		os.Exit(check(id, *tier))
+	case "mut":
+		prog, err := an.Load(nil)
+		if err != nil {
+			fmt.Println(err)
+			os.Exit(2)
+		}
+		props.DebugMut(prog, os.Args[2], os.Args[3], os.Args[4])
 	case "dtree":
 		// debugging aid: scverif dtree <pkg> <recv|-> <name> [anon index]
 		prog, err := an.Load(nil)
